@@ -198,6 +198,18 @@ def check_density(ctx, value):
         else:
             f.density = x
             wd, wn = x, x * ratio
+        if k % 2:
+            # an assignment the library rejects (the value cannot be divided by the mass ratio); the caller catches the
+            # exception, and both attributes still read what the last accepted assignment says
+            import decimal
+            bad = [decimal.Decimal("1.25"), "1.25", None, object()][(k // 2) % 4]
+            try:
+                f.natural_density = bad
+            except Exception:  # noqa
+                hist.append("natural_density=%r rejected" % (bad,))
+            else:
+                hist.append("natural_density=%r accepted" % (bad,))
+                f.density = wd
         if f.density is None or not close(f.density, wd, tol) or not close(f.natural_density, wn, tol):
             rep = len(hist) >= 2 and hist[-1] in hist[:-1]
             raise Violation("c12:density:sequence:" + ("repeated-value" if rep else "step"),
